@@ -410,3 +410,48 @@ def _cycles_without(f, head):
                 u = work[-1][0]
                 low[u] = min(low[u], low[v])
     return out
+
+
+STORE_RE = re.compile(r"(^|::)(_mm(256|512)?_(mask)?store[u]?_(si128|si256|si64|ps|pd|epi\d+)|_mm_storel_epi64|"
+                      r"vst1q?_(u|s|f)\d+|v128_store|write_unaligned|write|copy_from_slice|copy_nonoverlapping)$")
+
+
+def divide_every_chunk(rep, prog, rule, floor=6):
+    """in-place alpha division treats every chunk"""
+    rep.rule(rule, "in the in-place alpha DIVISION routines every closure that stores a processed chunk "
+             "(the bodies handed to foreach_with_pre_reading) performs that store on all of its paths: "
+             "an early `return` for a chunk whose alphas are all zero ('nothing to divide, nothing to "
+             "write back') leaves colours under alpha 0 as they are, while the division primitive "
+             "zeroes them -- after a convolution with negative lobes a resampled alpha is clamped to 0 "
+             "over a premultiplied colour that is not 0. (The same shortcut is right in the in-place "
+             "MULTIPLICATION for alpha == max, which is why this clause reads the division only.)")
+    n = 0
+    for f in sorted(prog.fns.values(), key=lambda x: x.id):
+        if f.kind == "closure" or not re.search(r"(^|::)alpha::.*::divide_alpha(_row)?_inplace$", f.name):
+            continue
+        for g in f.closures():
+            stores = [c for c in g.calls() if STORE_RE.search(c.name or "")]
+            if not stores:
+                continue
+            n += 1
+            rep.touch(g)
+            sb = {c.bb for c in stores}
+            seen, todo, leak = set(), [0], None
+            while todo:
+                k = todo.pop()
+                if k in seen or k in sb:
+                    continue
+                seen.add(k)
+                if g.term(k)[0] == "ret":
+                    leak = k
+                    break
+                todo.extend(g.succ[k])
+            key = "%s|%s" % (f.name, g.name.rsplit("::", 1)[-1])
+            if leak is None:
+                rep.ok(rule, key, g.loc, "the store is on every path of the chunk body")
+            else:
+                rep.bad(rule, key + "|skipped", g.loc,
+                        "%s: the body that processes one chunk can return without storing it (a "
+                        "shortcut before %s): pixels of that chunk keep their colour although the "
+                        "division would have produced 0 for alpha 0" % (g.name, short(stores[0].name)))
+    rep.floor(rule, "chunk bodies of in-place divisions", n, floor)
